@@ -12,9 +12,13 @@ shutil.rmtree(wt, ignore_errors=True)
 subprocess.run(f"git -C /repo worktree add -q --detach {wt} HEAD", shell=True, check=True)
 try:
     subprocess.run(f"git -C {wt} apply {patch}", shell=True, check=True)
+    # a snapshot of the framework, so that edits to /verif while this runs cannot disturb it
+    snap = f"{wt}/verif_snapshot"
+    subprocess.run(f"rsync -a --exclude work --exclude .git --exclude seeded --exclude evidence --exclude 'harness/target' /verif/ {snap}/",
+                   shell=True, check=True)
     env = dict(os.environ, VERIF_REPO=wt, VERIF_WORK=f"{wt}/vwork", VERIF_EVID=f"{wt}/vevid")
     for p in props:
-        r = subprocess.run(["/verif/check", p, tier], cwd="/verif", capture_output=True, text=True, env=env)
+        r = subprocess.run([f"{snap}/check", p, tier], cwd=snap, capture_output=True, text=True, env=env)
         viol = [l for l in r.stdout.splitlines() if l.startswith("VIOLATION")]
         verdict = "CAUGHT" if r.returncode == 1 and viol else ("TOOLERR" if r.returncode == 2 else "MISSED")
         print(f"{seed} vs {p} ({tier}): {verdict} rc={r.returncode} violations={len(viol)}")
